@@ -388,6 +388,23 @@ TMPL = [
     ], cap=1100),
 ]
 
+TMPL += [
+    # inline flags of the same name, both with defaults: the value travels by name, the default is used only from contexts without such a flag
+    TG("t12", "abc", ["Sx"], [], [
+        ("Sx", [], [(S(NT("Ox", "+Fx"), T("c"), N("Ox"), T("c"), N("Ix")), "Root")]),
+        ("Ox", [("Fx", "false")], [(S(T("a"), N("Ix")), "Outer")]),
+        ("Ix", [("Fx", "false")], [(C("Fx", T("b")), "IY"), (C("!Fx", S(T("c"), T("c"))), "IN")]),
+    ]),
+    # two lookahead flags pinned by different leading references of one nonterminal; the flag arrives through a parent with another alternative
+    TG("t13", "abcde", ["Sx"], [("La", "la", "false"), ("Lb", "la", "false")], [
+        ("Sx", [], [(S(NT("Xx", "+Lb"), T("c"), N("Xx")), "Root")]),
+        ("Xx", [], [(S(N("Tx")), "XT"), (S(N("Wx")), "XW")]),
+        ("Tx", [], [(S(NT("Ux", "~Lb"), T("d")), "T1"), (S(NT("Ux", "~La"), T("e")), "T2")]),
+        ("Ux", [], [(C("!La", T("a")), "Ua"), (C("!Lb", T("b")), "Ub"), (S(T("d")), "Ud")]),
+        ("Wx", [], [(C("!Lb", S(T("c"), T("c"))), "W1"), (S(T("c"), T("d")), "W2")]),
+    ], cap=3200),
+]
+
 # a nonterminal all of whose alternatives are switched off derives nothing
 TMPL_EMPTY = [
     TG("t10", "abc", ["Sx"], [("Fa", "flag", None)], [
